@@ -42,8 +42,13 @@ class Gen:
                    f"min({self.int_expr(depth - 1, extra)}, {self.int_expr(depth - 1, extra)})"
         if c < 0.84:
             return f"int({self.float_expr(depth - 1)})" if r.random() < 0.5 else f"len({r.choice(['s0', 'xs'])})"
-        if c < 0.92:
+        if c < 0.90:
             return f"({self.int_expr(depth - 1, extra)} if {self.cond(depth - 1, extra)} else {self.int_expr(depth - 1, extra)})"
+        if c < 0.94:
+            # arithmetic on comparison results (bool operands, int result)
+            return f"(({self.int_atom(0, extra)} > {self.int_atom(0, extra)}) + ({self.int_atom(0, extra)} <= {r.randint(0, 9)}))"
+        if c < 0.97:
+            return f"ys[{r.randint(0, 1)}]"
         return f"(-{r.choice(pool)})"
 
     def int_expr(self, depth=2, extra=()):
@@ -102,8 +107,11 @@ class Gen:
             base = f"{self.int_atom(depth, extra)} {cmpop} {self.int_atom(depth, extra)}"
         elif c < 0.65:
             base = f"{r.choice(self.floats)} {r.choice(['<', '>', '<=', '>='])} {self.float_atom(0)}"
-        elif c < 0.75:
+        elif c < 0.72:
             base = f"{r.randint(0, 3)} <= {self.int_atom(0, extra)} < {r.randint(4, 12)}"
+        elif c < 0.75:
+            mid = self.int_atom(1, extra)
+            base = f"{r.randint(-2, 3)} < {mid} <= {r.randint(4, 30)}" if r.random() < 0.6 else f"0 <= {mid} + 1 < {r.randint(5, 20)} <= 40"
         elif c < 0.85:
             base = f"{r.choice(self.strs)} == {repr(r.choice(['k', 'on']))}"
         else:
@@ -129,6 +137,13 @@ class Gen:
         if c < 0.40:
             v = r.choice(self.ints)
             return [f"{v} {r.choice(['+=', '-=', '*='])} {r.randint(1, 3)}"]
+        if c < 0.42:
+            v = r.choice(self.ints)
+            rhs = r.choice([f"{self.int_atom(0, extra)} if {self.cond(0, extra)} else {r.randint(0, 3)}", f"{self.int_atom(0, extra)} > {self.int_atom(0, extra)}",
+                            f"({self.int_atom(0, extra)} if {self.cond(0, extra)} else 1)"])
+            return [f"{v} {r.choice(['+=', '-='])} {rhs}"]
+        if c < 0.44 and not in_func:
+            return r.choice([["zs.append(7)", "zs.remove(7)"], ["names.append('k')", "names.remove('k')"], ["ws.append(2.5)", "ws.remove(2.5)"], ["zs.append(a)", "zs.remove(a)"]])
         if c < 0.46:
             a, b = r.sample(self.ints, 2)
             return [f"{a}, {b} = {b}, {a}"] if r.random() < 0.5 else [f"{a}, {b} = {b}, {a} + {b}"]
@@ -183,7 +198,10 @@ class Gen:
             saved, self.ints = self.ints, params
             body = []
             if r.random() < 0.5:
-                body += [f"if {params[0]} > {r.randint(0, 5)}:", f"    return {self.int_expr(1)}"]
+                if r.random() < 0.3:
+                    body += [f"if({params[0]} > {r.randint(0, 5)}):", f"    return({self.int_expr(1)})"]
+                else:
+                    body += [f"if {params[0]} > {r.randint(0, 5)}:", f"    return {self.int_expr(1)}"]
             if r.random() < 0.4:
                 body += [f"w = {self.int_expr(1)}", "for j in range(2):", f"    w = w + {params[0]}", f"return w + {self.int_expr(1)}"]
             else:
@@ -205,6 +223,12 @@ class Gen:
         nf = r.randint(0, 2)
         # the fixed list and string are bound before the helpers (a helper reading a global list that is bound later is a recorded finding)
         lines += ["xs = [%d, %d, %d]" % (r.randint(0, 9), r.randint(0, 9), r.randint(0, 9)), "s0 = " + repr(r.choice(["ab", "hello", "q"]))]
+        lo, hi, st = r.choice([(0, 4, 1), (1, 8, 3), (9, 0, -2), (10, 0, -3), (7, 1, -4), (2, 13, 5)])
+        lines += [f"ys = [i * {r.randint(1, 3)} + {r.randint(0, 2)} for i in range({lo}, {hi}, {st})]" if r.random() < 0.7 else f"ys = [i + 1 for i in range({r.randint(2, 5)})]",
+                  "zs = [4, 5, 6]", "ws = [0.5, 1.5]", "names = ['a', 'b']"]
+        two_sig = r.random() < 0.5
+        if two_sig:
+            lines += ["def scale2(v, k):", "    w = v * k", f"    if w > {r.randint(2, 9)}:  # clamp", f"        w = w - {r.randint(1, 2)}", "    return w"]
         # helper functions do not call helpers defined later: generate each with an empty helper table
         for k in range(nf):
             fs, self.funcs = self.funcs, []
@@ -216,11 +240,15 @@ class Gen:
         self.funcs = saved_funcs
         for _ in range(r.randint(0, 3)):
             lines += self.stmt(2, False)
-        lines.append("while True:")
+        if two_sig:
+            lines += ["g0 = 1.5", f"mon.write(scale2({r.randint(1, 4)}, {r.randint(1, 3)}))", "mon.write(scale2(g0, 2))", "mon.write(scale2(g0, g0))"]
+        lines.append(r.choice(["while True:", "while True:", "while True:  # main loop", "while True :", "while(True):"]))
         body = []
         for _ in range(r.randint(2, 5)):
             body += self.stmt(2, True)
-        body += ["mon.write(a)", "mon.write(x)", f"sleep({r.choice([1, 10])})"]
+        body += ["mon.write(a)", "mon.write(x)", "mon.write(len(zs) + len(names))", "mon.write(ws[0] + zs[0])", f"sleep({r.choice([1, 10])})"]
+        # trailing comments on a few lines (never inside a string)
+        body = [l + "  # note" if (r.random() < 0.15 and "'" not in l and '"' not in l) else l for l in body]
         lines += ["    " + l for l in body]
         return HEAD + "\n".join(lines) + "\n"
 
